@@ -246,9 +246,8 @@ Print Assumptions C05_vario_zero_weight.
 (* The models of C06 and C12 have total coordinates.  The corrected code discards a sample with an undefined coordinate
    (or external drift, for the neighbourhood) at the very place where it discards a masked one; such a sample is
    therefore rendered in those models as a masked one (nembed / vembed, coq/C05/Spec_neigh.v, Spec_vario.v), and the
-   theorems below follow.  (For the variogram the rendering is exact but for the global mean of Vario::_getStatistics,
-   which the Poisson estimator consumes and which still counts the samples without coordinates: key
-   vario:undefined-coordinate:mean of the check, candidate fix fixes/C05_7.patch.) *)
+   theorems below follow (for the variogram this includes the global mean of Vario::_getStatistics since fixes/C05_7.patch;
+   regression key vario:undefined-coordinate:mean). *)
 Theorem C05_neigh_undefined : forall oracle p t (l : list nrow),
   let K := nkept (map nembed l) in
   let r := C06.Model.moving oracle p t (map nembed l) in
